@@ -509,8 +509,8 @@ def multi_uri_sources(ctx, configs=({},)):
             for e in certain[:2]:
                 add([(a, e), (b, URI_FORBIDDEN[n % len(URI_FORBIDDEN)])])
                 n += 1
-            for e in (rng.sample(URI_EXCEPTIONAL, 2) if q else URI_EXCEPTIONAL):
-                for f in ([rng.choice(URI_FORBIDDEN)] if q else URI_FORBIDDEN[:4]):
+            for e in rng.sample(URI_EXCEPTIONAL, 2 if q else 8):
+                for f in rng.sample(URI_FORBIDDEN, 1 if q else 2):
                     add([(a, e), (b, f)])
                     add([(b, f), (a, e)])          # the same set written in the other source order
     # what an attacker sends: the payload in one attribute, every (or many) other URI attribute(s) exceptional
